@@ -241,3 +241,78 @@ func VH_C10_step_arcto_Q() {
 	j := (sphi - base) / math.Pi
 	vAssert("C10.arcto.same_orientation_modulo_pi", math.Abs(j-math.Round(j)) <= 1e-9)
 }
+
+// C10: Path.Arc (centre form).  "If the difference between theta0 and theta1 is bigger than 360
+// degrees, one full circle will be drawn and the remaining part of diff % 360."  Circle of symbolic
+// radius r from the pen position (0,0) or (3,-2); start angle and extent from a grid (extents up to
+// +-810 degrees).  Expected records: for |extent| >= 360 two arcs that lead to the opposite point and
+// back to the start, then (unless the remainder is 0) one arc to centre + r(cos theta1, sin theta1)
+// whose sweep flag is the sign of the extent and whose large flag says whether the remainder
+// exceeds 180 degrees.  ellipseRadiiCorrection is replaced by 1 (the end points lie on the circle).
+func vhC10One(start Point, rx, ry, phi float64, end Point) float64 { return 1 }
+
+func VH_C10_arc_Q() {
+	vStub("math.Hypot", vhHypotQ)
+	vStub("github.com/tdewolff/canvas.ellipseRadiiCorrection", vhC10One)
+	r := vNondetF64()
+	vAssume(0.5 <= r && r <= 8)
+	pen := []Point{{0, 0}, {3, -2}}[vChoose(0, 1)]
+	th0 := []float64{0, 90, -45}[vChoose(0, 2)]
+	exts := []float64{60, 200, 360, 450, 630, 720, 810}
+	ext := exts[vChoose(0, len(exts)-1)]
+	if vChoose(0, 1) == 1 {
+		ext = -ext
+	}
+	th1 := th0 + ext
+	p := &Path{}
+	p.MoveTo(pen.X, pen.Y)
+	p.Arc(r, r, 0, th0, th1)
+	subs, ok := vhDecode(p.d)
+	vAssert("C10.arc.decodable", ok && len(subs) == 1 && vhStructWF(p))
+	if !ok || len(subs) != 1 {
+		return
+	}
+	segs := subs[0].segs
+	a := ext
+	if a < 0 {
+		a = -a
+	}
+	rem := a
+	for rem >= 360 {
+		rem -= 360
+	}
+	want := 1
+	if a >= 360 {
+		want = 3
+		if rem == 0 {
+			want = 2
+		}
+	}
+	vAssert("C10.arc.record_count", len(segs) == want)
+	if len(segs) != want {
+		return
+	}
+	c0, s0 := math.Cos(th0*math.Pi/180), math.Sin(th0*math.Pi/180)
+	c1, s1 := math.Cos(th1*math.Pi/180), math.Sin(th1*math.Pi/180)
+	centre := Point{pen.X - r*c0, pen.Y - r*s0}
+	near := func(p, q Point) bool { return vhNear6(p.X, q.X) && vhNear6(p.Y, q.Y) }
+	allArcs := true
+	for _, sg := range segs {
+		allArcs = allArcs && sg.cmd == ArcToCmd && vhNear6(sg.a[0], r) && vhNear6(sg.a[1], r)
+		_, sw := toArcFlags(sg.a[3])
+		allArcs = allArcs && sw == (ext > 0)
+	}
+	vAssert("C10.arc.all_arcs_of_radius_r_in_the_right_direction", allArcs)
+	if a >= 360 {
+		opp := Point{2*centre.X - pen.X, 2*centre.Y - pen.Y}
+		vAssert("C10.arc.full_turn_first", near(segs[0].end, opp) && near(segs[1].end, pen))
+	}
+	if rem != 0 {
+		last := segs[len(segs)-1]
+		lg, _ := toArcFlags(last.a[3])
+		vAssert("C10.arc.remainder_end_point", near(last.end, Point{centre.X + r*c1, centre.Y + r*s1}))
+		if rem != 180 {
+			vAssert("C10.arc.remainder_large_flag", lg == (rem > 180))
+		}
+	}
+}
